@@ -118,6 +118,11 @@ DensTStep ==
                         E.rows[i][2] = (IF E.rows[i][1] < 2 * WinIx[1] \/ E.rows[i][1] > 2 * WinIx[2] THEN 0 ELSE E.rows[i][3])>> >>)
     /\ ln' = ln + 1 /\ UNCHANGED <<tid, fin, mvars>>
 
+\* x_nu(x) = x * density(x): row = <<x_nu, x * nu(x)>> in units of 1e-9 of the larger
+XNuStep ==
+    /\ More /\ E.e = "XNu"
+    /\ Judge(<< <<"XNuIsXTimesDensity", \A i \in 1..Len(E.rows) : Abs(E.rows[i][1] - E.rows[i][2]) <= 2>> >>)
+    /\ ln' = ln + 1 /\ UNCHANGED <<tid, fin, mvars>>
 RaiseStep ==
     /\ More /\ E.e = "Raise"
     /\ PrintT(<<"REJECT", Id, ln, "Raise", H.kind>>)
@@ -128,6 +133,6 @@ Finish ==
     /\ fin' = TRUE /\ UNCHANGED <<tid, ln, bad, mvars>>
 
 TraceNext == TruncStep \/ ResetStep \/ QueryStep \/ QueryQStep \/ DensStep \/ TableStep \/ VersusStep \/ TableTStep
-             \/ DensTStep \/ RaiseStep \/ Finish
+             \/ DensTStep \/ XNuStep \/ RaiseStep \/ Finish
 TraceSpec == TraceInit /\ [][TraceNext]_tvars
 =============================================================================
